@@ -81,6 +81,42 @@ def held_by_parallel_sibling(F: Facts, ev, awaiter, at_seq):
     return False
 
 
+def drain_round_robin_ok(F: Facts, awaiter, bus, ev, awaited=None):
+    """Was taking `ev` from `bus` consistent with 'one event per bus per pass'?  Looks at the previous event the
+    same polling loop took from the same bus: between the end of that event's processing and this dequeue, every
+    other bus that had an event waiting the whole time must have been served by this loop."""
+    mode = 'inline:' + awaiter
+    mine = sorted((seq, b, e) for (b, e), lst in F.deq.items() for (seq, m) in lst if m == mode)
+    # only the polling loop of the one await in question (an activation may await several events in turn)
+    dq = next((x[0] for x in mine if x[1] == bus and x[2] == ev), None)
+    aw = next((a for a in F.awaits if a.actor == awaiter and (awaited is None or a.ev == awaited)
+               and dq is not None and a.b < dq and (a.e is None or a.e > dq)), None)
+    if aw is not None:
+        mine = [x for x in mine if x[0] > aw.b and (aw.e is None or x[0] < aw.e)]
+    cur = next((i for i, x in enumerate(mine) if x[1] == bus and x[2] == ev), None)
+    if cur is None:
+        return True
+    prev = next((i for i in range(cur - 1, -1, -1) if mine[i][1] == bus), None)
+    if prev is None:
+        return True
+    pe_prev = [p[1] for p in F.pe.get((bus, mine[prev][2]), ()) if p[0] > mine[prev][0] and p[1] is not None]
+    if not pe_prev:
+        return True
+    start, end = min(pe_prev), mine[cur][0]
+    served = {x[1] for x in mine[prev + 1:cur]}
+    for other in F.bus_cfg:
+        if other == bus or other in served or F.bus_stopped_before(other, end):
+            continue
+        # an event accepted by `other` before `start` and not dequeued by anyone until `end`
+        for (b2, e2), acc in F.accepted.items():
+            if b2 != other or acc > start:
+                continue
+            dq = [s for s, m in F.deq.get((b2, e2), ())]
+            if not dq or min(dq) > end:
+                return False
+    return True
+
+
 def guard_raised(F: Facts, ev):
     for (b, e), lst in F.pe.items():
         if e == ev:
@@ -332,7 +368,14 @@ def diagnose(F: Facts, v) -> str:
     if prop == 'C05' and cl == 'unrelated_in_window':
         actor, ev, other = key
         act = v['detail']['act']
-        if actor in _chain(F, act)[1:]:
+        ch = _chain(F, act)
+        if actor in ch[1:]:
+            # F0 is the documented drain policy: one event per bus per pass over all buses.  A polling loop that
+            # takes a second event from a bus while another running bus had work waiting the whole time is not F0.
+            drainer = ch[ch.index(actor) - 1]  # the activation whose event was taken directly by `actor`'s loop
+            d = F.acts.get(drainer)
+            if d is not None and not drain_round_robin_ok(F, actor, d.bus, d.ev, ev):
+                return 'unexplained'
             return 'F0'
         # run concurrently with the awaiter: only legal mechanism is a parallel bus (F15)
         for a in _chain(F, act):
